@@ -424,9 +424,9 @@ pub fn property() -> Property {
         subs: vec![
             Box::new(PropSub {
                 name: "C03/sa-bytes",
-                quick: 160_000,
+                quick: 400_000,
                 thorough: 3_200_000,
-                shards_quick: 8,
+                shards_quick: 16,
                 shards_thorough: 16,
                 strat: bytes::strat,
                 check: bytes::check,
@@ -435,9 +435,9 @@ pub fn property() -> Property {
             }),
             Box::new(PropSub {
                 name: "C03/sa-int",
-                quick: 90_000,
+                quick: 250_000,
                 thorough: 1_800_000,
-                shards_quick: 3,
+                shards_quick: 16,
                 shards_thorough: 8,
                 strat: ints::strat,
                 check: ints::check,
@@ -446,9 +446,9 @@ pub fn property() -> Property {
             }),
             Box::new(PropSub {
                 name: "C03/sampled",
-                quick: 80_000,
+                quick: 200_000,
                 thorough: 1_600_000,
-                shards_quick: 4,
+                shards_quick: 16,
                 shards_thorough: 12,
                 strat: sampled::strat,
                 check: sampled::check,
